@@ -910,9 +910,22 @@ def run(update_baseline=False, jobs=14):
     seen = {}
     for s in sites:
         seen.setdefault(s["key"], []).append(s)
+    # site ordinals move when a call site is rewritten in an equivalent form (make_shared<T>(...) -> T out(...)): an
+    # expected key that is gone is still present if the same method still carries at least as many proved obligations
+    # of the same target / kind / parameter under other ordinals as the baseline expects
+    def noord(key):
+        return re.sub(r"#\d+\|", "|", key)
+    exp_groups, now_groups = {}, {}
+    for key in expected:
+        exp_groups[noord(key)] = exp_groups.get(noord(key), 0) + 1
+    for key, group in seen.items():
+        if all(s["status"] == "proved" for s in group):
+            now_groups[noord(key)] = now_groups.get(noord(key), 0) + 1
     for key in sorted(expected):
         group = seen.get(key)
         if not group:
+            if now_groups.get(noord(key), 0) >= exp_groups[noord(key)]:
+                continue          # renumbered: the obligations are reported below under their new keys
             obligations.append({"id": "gcall:%s#%d" % (key, n), "unit": key, "kind": "G.present", "label": "callsite", "line": None,
                                 "desc": "call-site obligation %s is still generated" % key, "status": "unknown", "time": 0.0,
                                 "backend": "syntactic", "model": None, "auto": False})
